@@ -31,6 +31,25 @@ fn probe(path: &str, pagesize: u64) -> String {
     }
 }
 
+/// only the database's own consistency check (for images whose trees were damaged on purpose: reading
+/// them through the API may fail in many ways, the check's verdict is what is compared)
+fn probe_check(path: &str, pagesize: u64) -> String {
+    let r = catch_unwind(AssertUnwindSafe(|| {
+        let db = match OpenOptions::new().pagesize(pagesize).open(path) {
+            Ok(db) => db,
+            Err(e) => return err_class(&e),
+        };
+        match db.check() {
+            Ok(()) => "chk=ok".to_string(),
+            Err(e) => format!("chk={}", err_class(&e)),
+        }
+    }));
+    match r {
+        Ok(s) => s,
+        Err(p) => panic_class(&*p),
+    }
+}
+
 pub fn main(args: &[String]) {
     let inp = std::fs::File::open(&args[0]).expect("open list");
     let mut out = std::io::BufWriter::new(std::fs::File::create(&args[1]).expect("create out"));
@@ -40,7 +59,7 @@ pub fn main(args: &[String]) {
         if f.len() < 3 {
             continue;
         }
-        let outcome = probe(f[1], f[2].parse().unwrap());
+        let outcome = if f[0].starts_with("chk-") { probe_check(f[1], f[2].parse().unwrap()) } else { probe(f[1], f[2].parse().unwrap()) };
         writeln!(out, "{} => {}", f[0], outcome).unwrap();
         out.flush().unwrap();
     }
